@@ -188,12 +188,13 @@ def c17(run):
                         'behavioural interchangeability of round-tripped keys (signatures verify across forms, identical tags / AEAD outputs) is checked on the implementation by the dispatch stream; the theorem covers the decision logic (factories and gates) for values equal up to Go integer type',
                         'that a CBOR/JSON/text round trip yields a map equal up to integer type is C09 (and observed here)']
     run.trusted += ['registry specification coq/Spec/RFC9053.v (hand transcription of RFC 9053 tables and of the 28 registrations)']
-    D.prove(run, extra_targets=['Model/DispatchCorr.vo'])
+    D.prove(run, extra_targets=['Model/DispatchCorr.vo', 'Model/TextCorr.vo'])
     rc, o = D.harness_build()
     if rc != 0:
         run.broke('harness build', o[-1500:])
     else:
         D.correspond(run, 'dispatch', [])
+        D.correspond(run, 'text', [], reference_theorem='C17_key_roundtrip_interchangeable / C09_bytestr_*_roundtrip (model of the text and JSON forms of ByteStr, CoseMap, Key)')
         D.run_minlink(run, 'C17_impl_realises_alg')
     run.cov['rule'] = ('real keys of the 24 registered algorithms x {original, CBOR, JSON, text round trip} x alg present/absent x optional kid/key_ops, all four factories; '
                        'grid of (kty, alg, crv) triples incl. unregistered values and non-integer members; nil key; KeySet/Signers/Verifiers lookups incl. case-variant and non-UTF-8 ids')
@@ -336,11 +337,12 @@ def c09(run):
     run.trusted += MSG_TRUST + ['stream values: encode / decode / compare on the implementation for keys, key sets, header maps, claim sets (struct and map forms), recipients, KDF contexts, ByteStr (CBOR, JSON, text)']
     run.assumptions += ['the bytes written for the unprotected header map decode (hypothesis of the still-verifies theorems; compared with the implementation by msgparts)',
                         'members within the decoder limits (`encodable`)']
-    D.prove(run, extra_targets=['Model/MsgWireCorr.vo'])
+    D.prove(run, extra_targets=['Model/MsgWireCorr.vo', 'Model/TextCorr.vo'])
     rc, o = D.harness_build()
     if rc != 0:
         run.broke('harness build', o[-1500:])
     else:
+        D.correspond(run, 'text', [], reference_theorem='C09_bytestr_text_roundtrip / C09_bytestr_json_roundtrip / C09_cosemap_*_as_cbor (model of the text and JSON forms)')
         D.correspond(run, 'msg', [], reference_theorem='C09_reencode_* (model of MarshalCBOR after UnmarshalCBOR)')
         D.correspond(run, 'msgparts', [], reference_theorem='C09_decode_encode / C09_struct_members_roundtrip (header maps, recipients, KDF contexts)')
         D.oracle(run, 'values', [])
